@@ -1,10 +1,10 @@
 \* Exhaustive bookkeeping model, thorough tier: <= 4 entries after the CreateSession,
-\* timestamps {0, 3, 6}, <= 2 raft-internal gaps, <= 3 snapshots (measured: 2,543,543
+\* timestamps {0, 3, 4}, <= 2 raft-internal gaps, <= 3 snapshots (measured: 2,543,543
 \* distinct states, 3 min 12 s with 4 workers).
 SPECIFICATION Spec
 CONSTANTS
     Alphabet <- AlphaBook
-    TS = {0, 3, 6}
+    TS = {0, 3, 4}
     Nows = {61, 64, 70}
     Prelude <- PreludeSess
     DefaultExp = 60
